@@ -14,8 +14,9 @@ AllHReps      == {"dense", "sparse", "tuple", "callable", "linop", "lazy"}
 AllCbs        == {"none", "single", "dict"}
 NoCb          == {"none"}
 QuickCbs      == {"none", "dict"}
-\* the design after the smallest repairs (either repair of expm + density operator is acceptable)
-Repaired      == {"both", "reject"}
+\* the code after the fix: commits (two-sided expm for density operators, isinstance test for solved tuples)
+Repaired      == {"both"}
+\* the code before them: used by the MC_dev_* configurations, which must fail
 Pinned        == {"left"}
 Solve2OK      == {"ok"}
 Solve2Pinned  == {"crash"}
